@@ -1138,7 +1138,8 @@ class ConnectionBase(object):
                 size = len(msg.payload) + Packet.overhead(1+len(msgs)) + current_msg_length
                 # if the message fits add it to the packet
                 # (MAX_PAYLOAD_SIZE already excludes the single message overhead)
-                if size <= Packet.MAX_PAYLOAD_SIZE + Packet.MESSAGE_OVERHEAD_1:
+                # the message count is a single byte in the packet header
+                if size <= Packet.MAX_PAYLOAD_SIZE + Packet.MESSAGE_OVERHEAD_1 and len(msgs) < 255:
                     del self.pending_retry_msg[msgseq]
                     msgs.append(msg)
                     current_msg_length += len(msg.payload)
@@ -1156,7 +1157,8 @@ class ConnectionBase(object):
             size = len(pending.payload) + Packet.overhead(1+len(msgs)) + current_msg_length
             # if the message fits add it to the packet
             # (MAX_PAYLOAD_SIZE already excludes the single message overhead)
-            if size <= Packet.MAX_PAYLOAD_SIZE + Packet.MESSAGE_OVERHEAD_1:
+            # the message count is a single byte in the packet header
+            if size <= Packet.MAX_PAYLOAD_SIZE + Packet.MESSAGE_OVERHEAD_1 and len(msgs) < 255:
                 self.outgoing_messages.pop(idx)
                 msgs.append(pending)
                 current_msg_length += len(pending.payload)
